@@ -518,6 +518,8 @@ open Lomond.Threads
 
 def parseCall (tok : String) : Option Call :=
   if tok = "tk" then some .autoPing
+  else if tok = "cn" then some .connect
+  else if tok = "ab" then some .abandon
   else
     match tok.splitOn "=" with
     | [h, a] =>
@@ -561,6 +563,8 @@ def kindName : Step → String
   | .inflate _ => "zd:inflate"
   | .dpeek => "zd:peek"
   | .dreset => "zd:reset"
+  | .setSock => "wr:sock"
+  | .brIfErr _ => "rd:closed"       -- refined by `entryName`: which of its own variables the loop reads next
 
 /-- what entry `t` is going to do in state `s` -/
 def entryName (v : Threads.Variant) (cfg : Threads.Cfg) (s : State) (t : Tid) : String :=
@@ -569,7 +573,13 @@ def entryName (v : Threads.Variant) (cfg : Threads.Cfg) (s : State) (t : Tid) : 
   | some c =>
     match c.rest with
     | [] => "idle"
-    | st :: _ => if blockedOn s.sh c then "blocked" else kindName st
+    | st :: _ =>
+      if blockedOn s.sh c then "blocked"
+      else
+        match st with
+        -- after `_send_request()`: `_close_socket()` tests `_sock` when the write raised, the loop tests `is_closed` otherwise
+        | .brIfErr _ => if c.err.isSome then "rd:sock" else "rd:closed"
+        | _ => kindName st
 
 def traceOf (v : Threads.Variant) (cfg : Threads.Cfg) : State → List Tid → List String
   | _, [] => []
@@ -588,6 +598,8 @@ def resultName (c : Call) (r : Result) : String :=
   | .autoPing => "poll" ++ w
   | .onData _ => "text" ++ w
   | .onData2 _ _ => "text" ++ w
+  | .connect => (if r.alt then "connecting+connect_fail" else "connecting+connected+ready+poll") ++ w
+  | .abandon => "abandoned" ++ w
   | _ => (match r.err with | none => "ok" | some e => errName e) ++ w
 
 def showChunk (cfg : Threads.Cfg) (c : Chunk) : String :=
@@ -633,12 +645,13 @@ def traceOfN (env : Threads.Env) (v : Threads.Variant) (cfg : Threads.Cfg) : Sta
   | s, t :: r => ("x" ++ toString t ++ ":" ++ entryName v cfg s t) :: traceOfN env v cfg (stepN env v cfg s t) r
 
 /-- every chunk with its bytes: the `j`-th chunk of a frame carries the frame's `j`-th piece -/
-def showChunksN (env : Threads.Env) (cfg : Threads.Cfg) : List Chunk → List Chunk → List String
+def showChunksN (env : Threads.Env) (cfg : Threads.Cfg) (isReq : Chunk → Bool) : List Chunk → List Chunk → List String
   | _, [] => []
   | pre, c :: r =>
     ("W" ++ toString c.tid ++ "." ++ toString c.idx ++ (if c.second then "b" else "a") ++ ":" ++
-      (if isCompressed c.desc.pay then "z" else hexOfBytes ((pieces env cfg c).getD (sentOf pre c.tid c.idx) []))) ::
-      showChunksN env cfg (pre ++ [c]) r
+      (if isReq c then "req"
+       else if isCompressed c.desc.pay then "z" else hexOfBytes ((pieces env cfg c).getD (sentOf pre c.tid c.idx) []))) ::
+      showChunksN env cfg isReq (pre ++ [c]) r
 
 def runThreads (line : String) : String :=
   match line.splitOn " | " with
@@ -647,7 +660,11 @@ def runThreads (line : String) : String :=
     let ps := parseProgs progS
     let sched := parseSched schedS
     let env := parseEnv cfgS
-    let s0 := init (progsOf ps)
+    -- a loop program that starts with `cn`: the run starts before the connection exists
+    let pre := ps.any fun p => p.head? == some Call.connect
+    let s0 := if pre then initPre (progsOf ps) else init (progsOf ps)
+    -- the chunks of the HTTP request (a placeholder frame on the model's wire: its position counts, its bytes are not modelled)
+    let isReq : Chunk → Bool := fun c => (ps.getD c.tid []).getD c.idx .autoPing == Call.connect
     let s := runN env v cfg s0 sched
     let tr := traceOfN env v cfg s0 sched
     let res : List String := (List.range ps.length).flatMap fun t =>
@@ -658,7 +675,7 @@ def runThreads (line : String) : String :=
     let peer := match peerDecode cfg.noTakeover [] (frames w) with
       | none => "fail"
       | some ms => if ms.all (fun m => ((ps.getD m.1 []).getD m.2.1 .autoPing).msg == m.2.2) then "ok" else "wrong"
-    " ".intercalate (tr ++ showChunksN env cfg [] w ++ (frames w).filterMap showZFrame ++ res ++
+    " ".intercalate (tr ++ showChunksN env cfg isReq [] w ++ (frames w).filterMap showZFrame ++ res ++
       ["END:closing=" ++ b2s s.sh.closing ++ ":closed=" ++ b2s s.sh.closed ++ ":sock=" ++ b2s s.sh.sockOpen ++
        ":shut=" ++ b2s s.sh.sockShut ++
        ":lock=" ++ (match s.sh.lock with | none => "-" | some t => toString t) ++
@@ -674,7 +691,8 @@ def runEnum (line : String) : String :=
     let ps := parseProgs progS
     let pbS := kv (cfgS.splitOn " ") "pb" "-"
     let pb := if pbS = "-" then 1000000 else natOf pbS
-    let scheds := enumerateN (parseEnv cfgS) v cfg ps.length 400 (init (progsOf ps)) none pb
+    let pre := ps.any fun p => p.head? == some Call.connect
+    let scheds := enumerateN (parseEnv cfgS) v cfg ps.length 400 (if pre then initPre (progsOf ps) else init (progsOf ps)) none pb
     " ".intercalate (scheds.map fun sc => String.join (sc.map toString))
   | _ => "bad-op"
 
